@@ -48,6 +48,12 @@ func credTokens(h hdrTab) []string {
 	return out
 }
 
+// fieldName strips the markers under which trailer fields travel in tables / in Go's header map.
+func fieldName(k string) string {
+	k = strings.TrimPrefix(k, "Trailer:")
+	return strings.TrimPrefix(k, "Announced:")
+}
+
 func tabContains(h hdrTab, tok string) bool {
 	for k, vs := range h {
 		if strings.Contains(k, tok) {
